@@ -24,11 +24,18 @@ def main():
     rc_t, out_t = sh(f"{PY} -m pytest -q -p no:cacheprovider -x 2>&1 | tail -2", wt)
     suite_ok = " passed" in out_t and "failed" not in out_t
     rc_with, out_with = sh(f"{PY} demo.py", wt)
-    sh("git stash -- d42", wt)
+    # NOTE: `git stash` is shared by all worktrees of a repository — never use it here (other worktrees may be
+    # stashing at the same time); reverse-apply the diff instead.
+    patch_path = os.path.join(wt, ".seed_patch.diff")
+    open(patch_path, "w").write(diff)
+    rc_r, out_r = sh(f"git apply -R {patch_path}", wt)
+    assert rc_r == 0, out_r
     try:
         rc_without, out_without = sh(f"{PY} demo.py", wt)
     finally:
-        sh("git stash pop", wt)
+        rc_a, out_a = sh(f"git apply {patch_path}", wt)
+        assert rc_a == 0, out_a
+        os.remove(patch_path)
     ok = suite_ok and rc_with != 0 and rc_without == 0
     print(f"suite_ok={suite_ok} demo_with={rc_with} demo_without={rc_without} -> {'CONFIRMED' if ok else 'REJECTED'}")
     if not ok:
